@@ -275,6 +275,142 @@ PALETTE = ["ld", "LD", "a", "hl", "(", ")", ",", "nz", "@db", "@DW", "@bogus", "
            '"s"', '"a\\nb"', '"\\$41"', '"\\q"', "'c'", "'ab'", "''", "'\\n'", ";c", "\\", "<<<", ">>", ">=", "=", "==", "!", "!=", "&&", "|", "é", "é1", "😀", "§", " ", " ",
            "\t", " ", "  ", "\n", "\r\n", "af'", "AF'", "a'", "_x", "@", "@ db", "..", "a.b.c", "`", "#", "?", ":", "{", "}", "~", "^", "*", "/", "+", "-", '"open', "'"]
 
+# ---------------------------------------------------------------- located expressions (ExprLoc.lptree)
+UN = ["-", "+", "!", "~", "<", ">"]
+BIN = ["+", "-", "*", "&", "|", "^", "<<", ">>", "<<<", ">>>", "==", "!=", "<", "<=", ">", ">=", "&&", "||"]
+def gen_expr_tokens(rng, depth, atoms):
+    """token texts of a random expression without division"""
+    k = rng.random()
+    if depth <= 0 or k < 0.3:
+        return [rng.choice(atoms)] if rng.random() > 0.12 else ["@sizeof", rng.choice(["Sname", "Sname.fb"])]
+    if k < 0.5:
+        return [rng.choice(UN)] + gen_expr_tokens(rng, depth - 1, atoms)
+    if k < 0.65:
+        return ["("] + gen_expr_tokens(rng, depth - 1, atoms) + [")"]
+    if k < 0.72:
+        return (["("] + gen_expr_tokens(rng, depth - 1, atoms) + ["?"] + gen_expr_tokens(rng, depth - 2, atoms) + [":"] +
+                gen_expr_tokens(rng, depth - 2, atoms) + [")"])
+    return gen_expr_tokens(rng, depth - 1, atoms) + [rng.choice(BIN)] + gen_expr_tokens(rng, depth - 1, atoms)
+
+def gen_exprloc_case(rng):
+    arch = rng.choice(asmk.ARCHES)
+    b = Builder(rng, arch)
+    b.text += "@defn kc1, 3\n@struct Sname\n fa 2\n fb 1\n@endstruct\n"
+    b.fillers(0, 6)
+    mode = rng.choice(["range_now", "range_later", "undefined"])
+    atoms = ["0", "7", "$1f", "%101", "255", "@here", "kc1", "'x'"]
+    if mode != "range_now":
+        atoms += ["lt1", "lt1"]
+    toks = gen_expr_tokens(rng, rng.choice([0, 1, 2, 3, 4]), atoms)
+    if mode == "undefined":
+        # the undefined name stands somewhere in the expression, possibly twice: it is reported at its first mention
+        cand = [i for i, t in enumerate(toks) if t in atoms and (i == 0 or toks[i - 1] != "@sizeof")]
+        for i in rng.sample(cand, min(len(cand), rng.choice([1, 1, 2]))) if cand else []:
+            toks[i] = "nosuch"
+        if "nosuch" not in toks:
+            toks = toks + ["+", "nosuch"]
+    elif mode == "range_later" and "lt1" not in toks:
+        toks = toks + ["+", "lt1"]
+    d = rng.choice(["@db", "@dw"])
+    if mode != "undefined":
+        # the value fits neither a byte nor a word, whatever the random part evaluates to: it is multiplied by 0 inside
+        # parentheses; the expression starts with unary operators, a parenthesis, or an atom of every kind
+        if rng.random() < 0.5:
+            toks = [rng.choice(UN) for _ in range(rng.choice([0, 1, 1, 2, 3]))] + ["("] + toks + [")", "*", "0", "+", "100000"]
+        else:
+            a0 = rng.choice(atoms + ["@sizeof"])
+            toks = ([a0, rng.choice(["Sname", "Sname.fa"])] if a0 == "@sizeof" else [a0]) + ["*", "0", "+", "100000", "+", "("] + toks + [")", "*", "0"]
+    ind = rng.choice(["", " ", "\t", "lq%d: " % rng.randrange(10**6)])
+    pre = rng.choice(["", "", "1, ", '"é", ' if d == "@db" else "2, ", "1, \\\n  ", "kc1 + 1, ( 2 ), "])
+    b.text += ind
+    stmt_line = b.mark()[0]
+    b.text += d + " " + pre
+    lead = None
+    first = {}
+    for i, t in enumerate(toks):
+        if i > 0:
+            glue_ok = t in ("(", ")") or toks[i - 1] in ("(", ")")
+            b.text += rng.choice(["", " "] if glue_ok else [" "]) if rng.random() < 0.75 else rng.choice(["  ", " \t", " \\\n", " \\\n   ", " \\  \n "])
+        pos = b.mark()
+        if lead is None and t != "@sizeof":
+            lead = pos
+        if lead is None and t == "@sizeof":
+            pass
+        if t not in first and (i == 0 or toks[i - 1] != "@sizeof"):
+            first[t] = pos
+        b.text += t
+    b.text += rng.choice(["", " ", " ; c"]) + "\n"
+    b.fillers(0, 3)
+    b.text += "@defn lt1, 5\n@defn okfwd, $1234\n"
+    want = first["nosuch"] if mode == "undefined" else lead
+    return {"arch": arch, "text": b.text, "mode": mode, "line": stmt_line, "want": want, "expr": " ".join(toks), "skip": pre.count(",")}
+
+def exprloc_leg(ck, harness, model, n):
+    """K: the location of an expression / of a mentioned symbol according to ExprLoc.lptree on the lexer model's tokens
+    vs the position the implementation reports; O: vs the position counted by the generator"""
+    rng = ck.rng
+    cases = [gen_exprloc_case(rng) for _ in range(n)]
+    icases = [asm_case(c["arch"], files={"/w/main.asm": c["text"]}) for c in cases]
+    res = [AsmResult(r) for r in run_cases(harness, icases)]
+    mod = run_cases(model, ["mexprloc\t%s\t%s\t\t\t%d\t%d" % (c["arch"], c["text"].encode("utf8").hex(), c["line"], c["skip"]) for c in cases])
+    ck.evaluations += len(cases)
+    nbad = 0
+    for c, a, ic, m in zip(cases, res, icases, mod):
+        d = parse_diag(a.msg) if (a.kind == "ERR" and a.msg) else None
+        got = (d[2][1], d[2][2]) if d else None
+        mpos = None
+        mm = re.match(r"OK (\d+):(\d+)((?: [0-9a-f]*@\d+:\d+)*)$", m)
+        if mm:
+            if c["mode"] == "undefined":
+                for ent in mm.group(3).split():
+                    nm, _, at = ent.partition("@")
+                    if bytes.fromhex(nm) == b"nosuch":
+                        mpos = tuple(int(x) for x in at.split(":"))
+                        break
+            else:
+                mpos = (int(mm.group(1)), int(mm.group(2)))
+        ck.count("exprloc-K:%s:%s" % (c["mode"], "located" if got else a.kind))
+        if "\\\n" in c["text"].split("\n@defn lt1")[0][-200:] or "@sizeof" in c["expr"]:
+            ck.nontriv(ic)
+        bad = None
+        if a.kind != "ERR" or got is None:
+            bad = ("O", "no located diagnostic (%s %r)" % (a.kind, (a.msg or "")[:100]))
+        elif got != tuple(c["want"]):
+            bad = ("O", "points at %d:%d, the expression / the first mention of the undefined symbol is at %d:%d" % (got + tuple(c["want"])))
+        elif mpos is None:
+            bad = ("K", "the located parser model gives %r, the implementation reports %d:%d" % ((m[:80],) + got))
+        elif mpos != got:
+            bad = ("K", "the located parser model says %d:%d, the implementation reports %d:%d" % (mpos + got))
+        if bad:
+            nbad += 1
+            if nbad <= 2:
+                ck.violation("%s operand `%s` (%s): %s" % (c["mode"], c["expr"][:80], c["arch"], bad[1]),
+                             {"mode": "asm", "arch": c["arch"], "files": {"/w/main.asm": c["text"]}, "harness_case": ic,
+                              "correspondence": "ExprLoc.lptree on Lexer.lex_all vs the located diagnostic" if bad[0] == "K" else None,
+                              "expected": "diagnostic at %s" % (c["want"],), "got": (a.msg or a.raw)[:300], "model": m[:200]},
+                             **({"no_input": True} if bad[0] == "K" else {}))
+    return nbad
+
+def trace_leg(ck, model, cases, res):
+    """K: Trace.trace on the stack of sources the generator built vs the chain the implementation prints (read-time faults)"""
+    jobs, keep = [], []
+    for c, a in zip(cases, res):
+        d = parse_diag(a.msg) if (a.kind == "ERR" and a.msg) else None
+        if not d or c["phase"] != "A" or len(d[1]) != len(c["chain"]):
+            continue
+        # the column is the implementation's own (the generator accepts the directive or its operand); file and line are the generator's
+        st = ["%s:%d:%d" % (w[0].encode().hex(), w[1], g[2]) for g, w in zip(d[1], c["chain"])] + ["-"]
+        jobs.append("mtrace\t" + ",".join(st)); keep.append((c, d))
+    out = run_cases(model, jobs)
+    ck.evaluations += len(jobs)
+    ck.count("trace-K:stacks", len(jobs))
+    for (c, d), o, j in zip(keep, out, jobs):
+        want = "OK" + "".join(" %s:%d:%d" % (f.encode().hex(), l, col) for f, l, col in d[1])
+        if o != want:
+            ck.violation("correspondence: Trace.trace gives %r for the open sources, the implementation printed %r" % (o[:120], want[:120]),
+                         {"correspondence": "Trace.trace vs Assembler::trace_error", "model_case": j, "files": c["files"]}, no_input=True)
+            break
+
 def run(ck):
     ck.rule = ("multi-file programs (root, file included from it, file included from that; sub-directory) over the three CPUs: "
                "filler of blank / whitespace-only / comment lines (with wide characters), CRLF line ends, continued lines (with "
@@ -286,7 +422,10 @@ def run(ck):
                "file containing the fault, its line and column (for @assert/@die/duplicate constant: the directive or its first "
                "operand), and for read-time errors the include chain (file and line of each @include, innermost first).  K: "
                "Lexer.lex_all vs the implementation's lexer on every generated file and on token-soup texts: token kinds, "
-               "payloads and line:column of every token and lexical error.  non-trivial = fault preceded by at least one "
+               "payloads and line:column of every token and lexical error; ExprLoc.lptree (on the lexer model's tokens) vs the position "
+               "the implementation reports for random operand expressions (unary leads, parentheses, ?:, @sizeof, continuations inside the "
+               "expression) that are out of range at once, only at link time, or mention an undefined symbol (first mention), each also "
+               "against the position the generator counted; Trace.trace vs the printed include chain.  non-trivial = fault preceded by at least one "
                "multi-line construct or wide character.")
     harness, model = asmk.setup(ck, PROP)
     rng = ck.rng
@@ -336,6 +475,9 @@ def run(ck):
                           "expected": "diagnostic at %s %s" % (c["target"], c["accept"]), "got": (a.msg or a.raw)[:300]})
             if nviol >= 3:
                 break
+    # K + O: located expressions; K: the include chain
+    exprloc_leg(ck, harness, model, 6000 if thorough else 1500)
+    trace_leg(ck, model, cases, res)
     # K: lexer model vs implementation, with locations
     jobs = []
     for c in cases[: (4000 if thorough else 700)]:
